@@ -30,6 +30,7 @@ type sharedEntry struct {
 	once    sync.Once
 	program *runtime.Program
 	err     error
+	panic   any // a panic raised by load: re-raised for every caller (never turned into "nil, nil")
 }
 
 func NewSharedPrograms() *SharedPrograms {
@@ -47,6 +48,11 @@ func (s *SharedPrograms) getOrLoad(location common.Location, load func() (*runti
 	loaded := false
 	e.once.Do(func() {
 		loaded = true
+		defer func() {
+			if r := recover(); r != nil {
+				e.panic = r
+			}
+		}()
 		e.program, e.err = load()
 	})
 	s.mu.Lock()
@@ -56,6 +62,9 @@ func (s *SharedPrograms) getOrLoad(location common.Location, load func() (*runti
 		s.Hits++
 	}
 	s.mu.Unlock()
+	if e.panic != nil {
+		panic(e.panic)
+	}
 	return e.program, e.err
 }
 
@@ -63,11 +72,25 @@ func (s *SharedPrograms) getOrLoad(location common.Location, load func() (*runti
 type CachingHost struct {
 	*host.Host
 	Shared *SharedPrograms
+	// loading holds the locations this execution is loading right now: a re-entrant
+	// request for one of them (from inside its own load callback) is answered by
+	// loading directly, as a plain map-based host would, instead of dead-locking.
+	loading map[common.Location]bool
 }
 
 func (c *CachingHost) GetOrLoadProgram(location runtime.Location, load func() (*runtime.Program, error)) (*runtime.Program, error) {
 	if _, ok := location.(common.AddressLocation); ok && c.Shared != nil {
-		return c.Shared.getOrLoad(location, load)
+		if c.loading[location] {
+			return load()
+		}
+		return c.Shared.getOrLoad(location, func() (*runtime.Program, error) {
+			if c.loading == nil {
+				c.loading = map[common.Location]bool{}
+			}
+			c.loading[location] = true
+			defer delete(c.loading, location)
+			return load()
+		})
 	}
 	return c.Host.GetOrLoadProgram(location, load)
 }
